@@ -18,6 +18,11 @@ prove the history-level clauses over the *unguarded* semantics (`World.execRaw` 
 `impossible.*` checks, any account — the contract itself, real tokens — may send any transfer) without
 any environment hypothesis; the per-handler clauses (`cw20_transfer_gate`, `payout_gas_limit_*`) are
 about the handlers, which are the same in both semantics.
+
+"Tokens already in a channel remain redeemable" is the invariant `InChannelPayable` (`in_channel_payable`
+from `instantiate`, `in_channel_payable_inv` from any state satisfying it); it fails on the upgrade path from
+the pre-allow-list layout when the migrate message sets no default gas limit
+(`legacy_upgrade_strands_cw20`, `redeemable_after_upgrade_partial`).
 -/
 namespace CwPlus.Props.C18
 open CwPlus CwPlus.Ics20
